@@ -172,9 +172,20 @@ def run(pid, tier, seed):
             chk.fail("roundtrip", dict(case, json=text, came_back=sexp.dumps(bt)))
         elif back is not None:
             # encoding is a function of the structure: the decoded type is structurally identical, so it encodes to the same JSON
+            # (up to the order of union members: typing's caches may hand back an equal `Union` whose members were given in
+            # another order - `List[Union[int, str]]` and `List[Union[str, int]]` are one cached object)
+            def unordered(j):
+                if isinstance(j, dict):
+                    j = {k: unordered(v) for k, v in j.items()}
+                    if j.get("qualname") == "Union" and j.get("module") == "typing" and isinstance(j.get("elem_types"), list):
+                        j["elem_types"] = sorted(j["elem_types"], key=lambda x: json.dumps(x, sort_keys=True))
+                    return j
+                if isinstance(j, list):
+                    return [unordered(x) for x in j]
+                return j
             try:
-                again = envmodel.json_to_tree(json.loads(type_to_json(back)))
-                if again != ij:
+                again = envmodel.json_to_tree(unordered(json.loads(type_to_json(back))))
+                if again != envmodel.json_to_tree(unordered(json.loads(text))):
                     chk.fail("structure-only", dict(case, detail="encode(decode(encode(t))) differs from encode(t)", first=sexp.dumps(ij), again=sexp.dumps(again)))
             except Exception as e:
                 chk.fail("structure-only", dict(case, error=repr(e)[:200]))
